@@ -36,7 +36,7 @@ ASSUMPTIONS = [
     "get_paths / Part.segments / pretty_segments / add_segments are documented to store Segment objects on the part",
 ]
 COMPONENTS = {"real": ["partitura.score: add_segments, get_paths, Path, ScoreVariant.create_variant_part, unfold_part_maximal/minimal, iter_unfolded_parts, new_part_from_path", "utils.generic.ReplaceRefMixin", "utils.music.update_note_ids_after_unfolding"], "stub": ["none (no I/O in this world)"]}
-PROBES = ("same_call_twice_with_other_between", "tie_across_segment_boundary", "slur_across_segment_boundary", "volta", "volta3", "navigation", "two_repeats", "no_structure", "variant_count_checked", "partial_generator")
+PROBES = ("score_vs_part", "same_call_twice_with_other_between", "tie_across_segment_boundary", "slur_across_segment_boundary", "volta", "volta3", "navigation", "two_repeats", "no_structure", "variant_count_checked", "partial_generator")
 
 
 # ----------------------------------------------------------------------------
@@ -134,19 +134,24 @@ def expected_sequences(ap):
     return mx, mn, None
 
 
-def valid_path(ap, seq):
-    """is the measure sequence a path the structure permits? (transitions only)"""
+def valid_path(ap, seq, fine_needs_leap=True):
+    """is the measure sequence a path the structure permits? (transitions; a Fine
+    ends the piece only after a da capo / dal segno has been taken, except for the
+    minimal policy whose documentation says it stops at a Fine the first time)"""
     n, reps, ends, nav = structure(ap)
     if not seq or seq[0] != 0:
         return "does not start at the first measure"
     navd = {}
     for cls, i in nav:
         navd.setdefault(cls, []).append(i)
+    leapt = False
     for x, y in zip(seq, seq[1:]):
         if y == x + 1:
             continue
         b = x + 1  # boundary index after measure x
         ok = False
+        if (b in navd.get("DaCapo", []) and y == 0) or (b in navd.get("DalSegno", []) and y in navd.get("Segno", [])):
+            leapt = True
         if any(rb == b and ra == y for ra, rb in reps):
             ok = True  # repeat jump back
         if any(e[0] <= x < e[1] for e in ends) and any(ra == y for ra, rb in reps):
@@ -164,6 +169,8 @@ def valid_path(ap, seq):
     last = seq[-1]
     if last != n - 1 and (last + 1) not in navd.get("Fine", []):
         return "ends after measure %d, which is neither the last measure nor a Fine" % last
+    if last != n - 1 and fine_needs_leap and not leapt:
+        return "stops at the Fine after measure %d although no da capo / dal segno was taken before" % last
     return None
 
 
@@ -187,7 +194,7 @@ def check_part(res, ap, orig_part, rp, opname, policy, update_ids, orig_objs):
     if want is not None and seq != want:
         res.violation("U4-policy", opname, "%s unfolding visits measures %s, the notated repeats/endings give %s (shape %s)" % (policy, seq, want, ap.get("repeat_shape")), site=policy + ":" + str(ap.get("repeat_shape")))
         return
-    why = valid_path(ap, seq)
+    why = valid_path(ap, seq, fine_needs_leap=(policy != "min"))
     if why:
         res.violation("U1-path", opname, "result visits measures %s: %s (shape %s)" % (seq, why, ap.get("repeat_shape")), site=str(ap.get("repeat_shape")))
         return
@@ -329,6 +336,14 @@ def execute(case, keep_log=False):
                 r = S.unfold_part_maximal(arg, update_ids=op["update_ids"], ignore_leaps=op["ignore_leaps"])
                 rp = r.parts[0] if isinstance(r, S.Score) else r
                 outcome = check_part(res, ap, part, rp, "max", "max", op["update_ids"], orig_objs)
+                if case["knobs"]["via_score"] and outcome is not None:
+                    # the same part unfolded directly (fresh object) must follow the same path
+                    fresh = build.build_score(asc, with_pages=True).parts[0]
+                    rf = S.unfold_part_maximal(fresh, update_ids=op["update_ids"], ignore_leaps=op["ignore_leaps"])
+                    sf = [m.number - 1 for m in sorted(rf.iter_all(S.Measure), key=lambda m: m.start.t)]
+                    res.probe("score_vs_part")
+                    if sf != outcome:
+                        res.violation("U4-policy", "max", "unfolding the Score visits measures %s, unfolding its part with the same flags (ignore_leaps=%s) visits %s" % (outcome, op["ignore_leaps"], sf), site="score-vs-part")
             elif k == "min":
                 arg = score if case["knobs"]["via_score"] else part
                 r = S.unfold_part_minimal(arg)
